@@ -351,7 +351,7 @@ def direct_cveq(M, rec, rng, reps):
         rho = [rng.choice((0.0, rng.uniform(1, 180))) for _ in range(N)]
         vsl = sorted(rng.sample(range(N), rng.randint(0, N)))
         vc = [rng.choice((math.inf, rng.uniform(5, 150), 0.0)) for _ in vsl]
-        al, vf, rc, aa = rng.uniform(0, 0.3), rng.uniform(90, 130), rng.uniform(25, 40), rng.uniform(1.2, 3.2)
+        al, vf, rc, aa = rng.choice((rng.uniform(0, 0.3), rng.uniform(-0.2, 0.0))), rng.uniform(90, 130), rng.uniform(25, 40), rng.uniform(1.2, 3.2)
         side = "numpy" if rng.random() < 0.5 else "casadi"
         try:
             if side == "numpy":
